@@ -143,10 +143,15 @@ where
         mut y: Self::State,
         id: &ID,
     ) -> Result<(Self::State, Option<OneTimeKeyBundle>), Self::Error> {
-        let bundle = y
-            .onetime_bundles
-            .get_mut(id)
-            .and_then(|bundles| bundles.pop());
+        let bundle = y.onetime_bundles.get_mut(id).and_then(|bundles| {
+            // Bundles were verified when they got added but might have expired since then.
+            while let Some(bundle) = bundles.pop() {
+                if bundle.verify().is_ok() {
+                    return Some(bundle);
+                }
+            }
+            None
+        });
         Ok((y, bundle))
     }
 }
